@@ -153,7 +153,7 @@ pub fn interval(r: &mut Rng, pool: &[Version]) -> (VerifSide, VerifSide) {
 }
 
 pub fn range_struct(r: &mut Rng, pool: &[Version], maxalts: u64) -> Value {
-    let n = 1 + r.below(maxalts);
+    let n = if maxalts > 5 { maxalts - r.below(3) } else { 1 + r.below(maxalts) };
     let ivs: Vec<(VerifSide, VerifSide)> = (0..n).map(|_| interval(r, pool)).collect();
     bounds_to_json(&ivs)
 }
@@ -162,9 +162,12 @@ pub fn range_struct(r: &mut Rng, pool: &[Version], maxalts: u64) -> Value {
 fn ranges<W: Write>(r: &mut Rng, n: usize, out: &mut W) -> usize {
     for _ in 0..n {
         let pool = tie_pool(r);
-        let wide = match r.below(16) { 0 => 8, 1 | 2 => 5, _ => 3 };
-        let a = range_struct(r, &pool, wide);
-        let b = if r.chance(1, 3) { range_struct(r, &pool, 1) } else { range_struct(r, &pool, 3) };
+        // mostly 1-3 alternatives; now and then many (size-dependent fast paths)
+        let width = |r: &mut Rng| match r.below(32) { 0 => 20, 1 => 16, 2 | 3 => 9, 4..=6 => 5, _ => 3 };
+        let wa = width(r);
+        let a = range_struct(r, &pool, wa);
+        let wb = width(r);
+        let b = if r.chance(1, 3) { range_struct(r, &pool, 1) } else { range_struct(r, &pool, wb) };
         writeln!(out, "{}", json!({"op":"pair","A":a,"B":b})).unwrap();
     }
     n
@@ -377,6 +380,14 @@ fn vtext<W: Write>(r: &mut Rng, n: usize, out: &mut W) -> usize {
             }
         }
     }
+    // many identifiers in one tag (a 256-byte version can hold 125 of them)
+    for cnt in [30usize, 63, 64, 65, 66, 100, 124, 125] {
+        let ids = vec!["a"; cnt].join(".");
+        all.push(format!("1.2.3-{}", ids).into_bytes());
+        all.push(format!("1.2.3+{}", ids).into_bytes());
+        let half = vec!["0"; cnt / 2].join(".");
+        all.push(format!("1.2.3-{}+{}", half, half).into_bytes());
+    }
     // digits-only identifiers of 20-25 digits (they overflow u64 by various factors: text identifiers)
     for lead in ["2", "25", "3", "30", "5", "9", "99", "18446744073709551", "1844674407370955161", "4"] {
         for extra in [0usize, 1, 2, 4] {
@@ -485,6 +496,13 @@ fn vbuilt<W: Write>(r: &mut Rng, n: usize, out: &mut W) -> usize {
         }
         if r.chance(1, 2) {
             v.build = idlist(r, 3);
+        }
+        if r.chance(1, 15) {
+            // very many short identifiers (still within MAX_LENGTH when printed)
+            let cnt = 40 + r.below(60) as usize;
+            let l: Vec<Identifier> = (0..cnt).map(|k| if k % 3 == 0 { Identifier::Numeric(r.below(10)) } else { Identifier::AlphaNumeric("a".into()) }).collect();
+            if r.chance(1, 2) { v.pre_release = l; v.build = vec![]; } else { v.build = l; v.pre_release = vec![]; }
+            v.major = r.below(10); v.minor = r.below(10); v.patch = r.below(10);
         }
         writeln!(out, "{}", json!({"op":"vbuilt","v":ver_to_json(&v)})).unwrap();
     }
@@ -699,7 +717,7 @@ const OPS: &[&str] = &["", "", "=", "<", "<=", ">", ">=", "~", "~>", "^", "^", "
 
 fn neighbourhood(r: &mut Rng, partials: &[PartialAst], out: &mut Vec<Version>) {
     let mut push = |v: Version| {
-        if out.len() < 90 && !out.iter().any(|w| w.major == v.major && w.minor == v.minor && w.patch == v.patch && w.pre_release == v.pre_release && w.build == v.build) {
+        if out.len() < 110 && !out.iter().any(|w| w.major == v.major && w.minor == v.minor && w.patch == v.patch && w.pre_release == v.pre_release && w.build == v.build) {
             out.push(v);
         }
     };
@@ -745,6 +763,14 @@ fn neighbourhood(r: &mut Rng, partials: &[PartialAst], out: &mut Vec<Version>) {
                     t3.build = vec![Identifier::AlphaNumeric("b".into()), Identifier::Numeric(7)];
                     push(t3);
                 }
+                if r.chance(1, 3) {
+                    // same tag continued by identifiers whose numeric and textual orders differ
+                    for last in [Identifier::Numeric(9), Identifier::Numeric(10), Identifier::Numeric(2), Identifier::AlphaNumeric("1a".into())] {
+                        let mut t4 = t1.clone();
+                        t4.pre_release.push(last);
+                        push(t4);
+                    }
+                }
             }
             let mut ta = base.clone();
             ta.pre_release = vec![Identifier::AlphaNumeric(r.pick(&["a", "zz", "A", "rc"]).to_string())];
@@ -758,8 +784,10 @@ fn alt_ast(r: &mut Rng, pool: &[u64], tag_pool: &[Vec<String>], allow_hyphen: bo
     if allow_hyphen && r.chance(1, 6) {
         let (lo, lt) = partial_ast(r, pool, tag_pool);
         let (hi, ht) = partial_ast(r, pool, tag_pool);
-        let text = format!("{} - {}", lt, ht);
-        let j = json!({"cs":[{"op":"hyphen","lo":lo.json(),"hi":hi.json()}],"seps":[]});
+        let blanks = |r: &mut Rng| *r.pick(&[" ", " ", " ", "  ", "\t", "   ", " \t"]);
+        let (ls, rs) = (blanks(r), blanks(r));
+        let text = format!("{}{}-{}{}", lt, ls, rs, ht);
+        let j = json!({"cs":[{"op":"hyphen","lo":lo.json(),"hi":hi.json(),"ls":bytes(ls),"rs":bytes(rs)}],"seps":[]});
         parts.push(lo);
         parts.push(hi);
         return (j, text, true);
@@ -770,7 +798,7 @@ fn alt_ast(r: &mut Rng, pool: &[u64], tag_pool: &[Vec<String>], allow_hyphen: bo
         15 | 16 => 3,
         17 => 4,
         18 => 5,
-        _ => 7,
+        _ => if r.chance(1, 4) { 17 + r.below(24) } else { 7 },
     };
     let mut cs = Vec::new();
     let mut seps = Vec::new();
